@@ -553,8 +553,8 @@ def run(exe, seed, thorough, scale=1.0):
     try:
         w.precompute()
         rnd = random.Random(seed * 104729 + 5)
-        n_hash = int((40000 if thorough else 2200) * scale)
-        n_check = int((30000 if thorough else 1400) * scale)
+        n_hash = int((12000 if thorough else 2200) * scale)
+        n_check = int((8000 if thorough else 1400) * scale)
         special_dir = os.path.join(w.dir, "sp")
         os.makedirs(special_dir, exist_ok=True)
         cases = []
